@@ -261,10 +261,16 @@ class AlgInterp(Interp):
         self.alg = alg.copy() if alg is not None else AlgState()
 
 
-def alg_paths(world, run, alg: AlgState, **kw):
-    """enumerate paths of run(it) with the algebraic state `alg` as precondition"""
+class PathList(list):
+    truncated = False
+
+
+def alg_paths(world, run, alg: AlgState, max_paths=500, partial=False, **kw):
+    """enumerate paths of run(it) with the algebraic state `alg` as precondition; with partial=True a walk that exceeds
+    max_paths returns the paths found so far, marked truncated (each is a real path: a violation on one of them stands,
+    but their agreement proves nothing)"""
     from .interp import Oracle, Path, _Return
-    paths = []
+    paths = PathList()
     work = [[]]
     while work:
         prefix = work.pop()
@@ -286,8 +292,11 @@ def alg_paths(world, run, alg: AlgState, **kw):
         p.alg = it.alg
         if p.outcome != "infeasible":
             paths.append(p)
-        if len(paths) > 500:
-            raise AnalysisError("more than 500 algebraic paths")
+        if len(paths) > max_paths:
+            if partial:
+                paths.truncated = True
+                return paths
+            raise AnalysisError(f"more than {max_paths} algebraic paths")
         for i in range(len(prefix), len(orc.trace)):
             if orc.trace[i][0] is True:
                 work.append([c for c, _ in orc.trace[:i]] + [False])
